@@ -104,6 +104,7 @@ def run_batch(fam_name, seeds, tier, workers, opts=None, keep_samples=2, deadlin
     chunks = [args[i:i + csize] for i in range(0, len(args), csize)]
     out = {}
     timed_out = False
+    broken = None
     ctx = mp.get_context("fork")
     with cf.ProcessPoolExecutor(max_workers=workers, mp_context=ctx) as ex:
         futs = {}
@@ -130,7 +131,9 @@ def run_batch(fam_name, seeds, tier, workers, opts=None, keep_samples=2, deadlin
                 try:
                     out[futs[f]] = f.result()
                 except cf.process.BrokenProcessPool as e:
-                    raise HarnessError("a worker died (hang or crash): %r" % (e,))
+                    broken = repr(e)
+            if broken:
+                break
             if deadline and time.perf_counter() > deadline:
                 timed_out = True
                 for f in pending:
@@ -140,6 +143,13 @@ def run_batch(fam_name, seeds, tier, workers, opts=None, keep_samples=2, deadlin
     res = []
     for i in sorted(out):
         res.extend(out[i])
+    if broken:
+        # a run that never finishes is a harness error (exit 2) - unless runs completed before it already violate the
+        # property, which is then what gets reported (a change that stalls on one input usually misbehaves on others)
+        if not any(x.get("violations") for x in res):
+            raise HarnessError("a worker died (a run did not finish within %d s, or crashed): %s" % (RUN_WALL_CAP, broken))
+        print("note: a worker died (a run did not finish within %d s, or crashed); reporting the violations found before that" % RUN_WALL_CAP)
+        return res, True
     return res, timed_out
 
 
